@@ -98,14 +98,48 @@ func (c c16Case) canonical() []c16Ev {
 
 // c16GenEvents appends events for blocks from..to (1-based) to evs, given the live set and the next index.
 func c16GenEvents(rt *rapid.T, evs []c16Ev, live []common.Hash, idx uint32, from, to int, salt byte) ([]c16Ev, []common.Hash, uint32) {
+	idx0 := idx // indexes at or below this one may belong to roots this call does not know about
 	for i := from; i <= to; i++ {
 		switch rapid.SampledFrom([]int{0, 0, 1, 1, 1, 2}).Draw(rt, "evKind") {
 		case 1:
 			g := common.BigToHash(common.Big1)
 			g[0], g[1], g[2], g[3] = byte(i), byte(i>>8), 0xee, salt
-			idx += uint32(rapid.IntRange(1, 3).Draw(rt, "idxGap"))
-			evs = append(evs, c16Ev{Kind: 1, GER: g, Idx: idx, Lag: rapid.SampledFrom([]int{0, 0, 0, 0, 1, 3}).Draw(rt, "l1InfoLag")})
-			live = append(live, g)
+			lag := rapid.SampledFrom([]int{0, 0, 0, 0, 1, 3}).Draw(rt, "l1InfoLag")
+			// the L2 contract accepts any root of the L1 info tree: usually a newer one, sometimes one with a lower index
+			// than roots injected before, sometimes a root that was injected and removed earlier
+			used := map[uint32]bool{}
+			isLive := map[common.Hash]bool{}
+			for _, l := range live {
+				isLive[l] = true
+			}
+			var again []c16Ev
+			for _, e := range evs {
+				if e.Kind == 1 {
+					used[e.Idx] = true
+					if !isLive[e.GER] {
+						again = append(again, e)
+					}
+				}
+			}
+			var lower []uint32
+			for x := idx0 + 1; x < idx; x++ {
+				if !used[x] {
+					lower = append(lower, x)
+				}
+			}
+			switch kind := rapid.SampledFrom([]int{0, 0, 0, 0, 1, 2}).Draw(rt, "insertKind"); {
+			case kind == 1 && len(lower) > 0:
+				evs = append(evs, c16Ev{Kind: 1, GER: g, Idx: lower[rapid.IntRange(0, len(lower)-1).Draw(rt, "lowerIdx")], Lag: lag})
+				live = append(live, g)
+			case kind == 2 && len(again) > 0:
+				e := again[rapid.IntRange(0, len(again)-1).Draw(rt, "injectAgain")]
+				evs = append(evs, c16Ev{Kind: 1, GER: e.GER, Idx: e.Idx, Lag: lag})
+				live = append(live, e.GER)
+			default:
+				idx += uint32(rapid.IntRange(1, 3).Draw(rt, "idxGap"))
+				evs = append(evs, c16Ev{Kind: 1, GER: g, Idx: idx, Lag: lag})
+				live = append(live, g)
+			}
 		case 2:
 			if len(live) > 0 {
 				k := rapid.IntRange(0, len(live)-1).Draw(rt, "rmWhich")
